@@ -77,8 +77,14 @@ def run(ctx):
         srcs.append(parsing.mutate(rng, parsing.rand_prog(rng))); expected.append(None); kinds.append("mutation")
     answers = model.ask([parsing.model_line(s) for s in srcs])
     last_render = None
+    from mpilot.parser.parser import Parser as _Parser
+    veteran = _Parser()          # one Parser object that reads every text of the run, rejected ones included: a text's tree does not depend on what the parser read before
     for src, exp, kind, ans in zip(srcs, expected, kinds, answers):
         real = parsing.real_parse(src)
+        again = parsing.real_parse(src, parser=veteran)
+        ctx.count("long_lived_parser_parses")
+        if again != real:
+            ctx.fail("a Parser that has read other texts before (rejected ones included) reads this text differently from a fresh Parser", {"source": src, "fresh": real[:600], "used": again[:600]})
         ans2 = parsing.normalise_model(ans)
         ctx.case(src, nontrivial=real != "syntax" or kind in ("mutation", "token-soup"), sample={"kind": kind, "source": src[:300], "real": real[:200], "model": ans2[:200]})
         ctx.count("kind:" + kind)
